@@ -113,7 +113,7 @@ class RayMeshIntersector:
         ray_origins,
         ray_directions,
         multiple_hits=True,
-        max_hits=20,
+        max_hits=None,
         return_locations=False,
     ):
         """
@@ -130,8 +130,9 @@ class RayMeshIntersector:
         multiple_hits : bool
           If True will return every hit along the ray
           If False will only return first hit
-        max_hits : int
-          Maximum number of hits per ray
+        max_hits : int or None
+          Maximum number of hits per ray, by default the number
+          of faces (a ray crosses a triangle at most once)
         return_locations : bool
           Should we return hit locations or not
 
@@ -150,6 +151,9 @@ class RayMeshIntersector:
         if ray_origins.shape != ray_directions.shape:
             raise ValueError("Ray origin and direction don't match!")
         ray_directions = util.unitize(ray_directions)
+        if max_hits is None:
+            # the loop below still ends as soon as no ray hits anything
+            max_hits = max(len(self.mesh.faces), 1)
 
         # since we are constructing all hits, save them to a deque then
         # stack into (depth, len(rays)) at the end
